@@ -105,7 +105,7 @@ def run(ctx):
         if ns == 0:
             raise AnalysisError("R8.1 contract: none of %s occurs in %s any more" % (exprs, fname))
         total_uses += nu
-    ctx.floor("R8.1", "type-specific uses of JSON-typed values", total_uses, 10)
+    ctx.floor("R8.1", "type-specific uses of JSON-typed values", total_uses, 7)
     # caller-guarded contracts
     sv = prog.find_class("SidecarValidator")
     vcs = sv.methods.get("_validate_column_structure")
